@@ -472,6 +472,8 @@ def main(argv=None) -> int:
         d["fails"].extend(r["fails"])
         d["wall_s"] += r["wall_s"]
         d["exhaustive"] = d["exhaustive"] or r.get("exhaustive")
+        if d["exhaustive"] and not d["exhaustive"].get("size"):
+            d["exhaustive"] = dict(d["exhaustive"], size_measured=True)
         for k, v in r.get("extra", {}).items():
             if isinstance(v, (int, float)) and isinstance(d["extra"].get(k, 0), (int, float)):
                 d["extra"][k] = d["extra"].get(k, 0) + v
@@ -531,7 +533,13 @@ def main(argv=None) -> int:
             samples.append({"law": lname, "case": _jsonable(s)})
     samples = samples[:40]
     rules = getattr(mod, "RULE", "")
-    exhaustive_subspaces = [d["exhaustive"] for d in per_law.values() if d["exhaustive"]]
+    exhaustive_subspaces = []
+    for d in per_law.values():
+        if d["exhaustive"]:
+            ex = dict(d["exhaustive"])
+            if ex.pop("size_measured", False):
+                ex["size"] = d["evaluations"]
+            exhaustive_subspaces.append(ex)
     missing = []
     for law in mod.LAWS:
         d = per_law.get(law.name)
